@@ -57,7 +57,7 @@ func (p *c24parent) GetValue(_ context.Context, k []byte) ([]byte, error) {
 // optionally one key whose read fails, under every schedule within the preemption bound.
 func VerifC24() {
 	ctx := context.Background()
-	nKeys := verifParam("keys", 2, c24MaxKeys)
+	nKeys := verifParam("keys", 2, 2)
 	nTxs := 2 + verifChoose("txs", verifParam("maxTxs", 2, 2)-1)
 	p := &c24parent{failKey: -1}
 	for k := 0; k < nKeys; k++ {
